@@ -1,5 +1,5 @@
 From Coq Require Extraction ExtrOcamlBasic.
-From OxiVerif Require Import Base.Conv Num.Natural Num.Saturating.
+From OxiVerif Require Import Base.Conv Num.Natural Num.Saturating Num.F64Count Num.NaturalDec.
 Extraction Language OCaml.
 Extraction "model.ml" conv_anchor
   Natural.mkNat Natural.digits Natural.expo Natural.ZERO Natural.NAN
@@ -9,6 +9,9 @@ Extraction "model.ml" conv_anchor
   Natural.partial_cmp Natural.nat_eqb Natural.hash_key
   Natural.try_into_u64 Natural.try_into_u128 Natural.to_f64_bits
   Natural.fmt_dec Natural.fmt_bin Natural.fmt_oct Natural.fmt_hex Natural.fmt_digit_count
+  NaturalDec.dec_digits NaturalDec.fmt_dec_digits
   Natural.mkFlags Natural.pad_integral Natural.fmt_nan_layout Natural.len_is_zero
   Saturating.su_max Saturating.su_from_u32 Saturating.su_add Saturating.su_sub
-  Saturating.su_shl Saturating.su_shr.
+  Saturating.su_shl Saturating.su_shr
+  F64Count.f64_norm_int F64Count.f64c_bits_of_N F64Count.f64c_bits_from_u32 F64Count.f64c_bits_add F64Count.f64c_bits_sub
+  F64Count.f64c_bits_shl F64Count.f64c_bits_shr F64Count.f64c_bits_is_nan Bits.bits_of_b64.
